@@ -155,19 +155,25 @@ func (c c02Case) optClasses(cls map[string]bool) {
 // reference model of one request (from the statement)
 
 type c02Plan struct {
-	d       int   // deadline in ticks after arrival seen by the timeout guard; -1: none
-	kinds   []int // statuses the timeout response may carry
-	f       int   // instant (ticks after arrival) at which the handler returns or panics
-	panics  bool
-	code    int               // status of the handler's own response
-	commit  bool              // handler called WriteHeader or Write
-	hdr     map[string]string // marker headers of the handler's own response
-	body    []byte            // body of the handler's own response
-	before  bool              // handler wrote strictly before the deadline
-	after   bool              // handler wrote at/after the deadline
-	risky   bool              // may produce a response >= 500 that the per-route breaker sees
-	behaved bool              // returns no later than the deadline
+	d         int   // deadline in ticks after arrival seen by the timeout guard; -1: none
+	kinds     []int // statuses the timeout response may carry
+	f         int   // instant (ticks after arrival) at which the handler returns or panics
+	panics    bool
+	badStatus bool              // the panic is raised inside WriteHeader by an out-of-range status code
+	code      int               // status of the handler's own response
+	commit    bool              // handler called WriteHeader or Write
+	hdr       map[string]string // marker headers of the handler's own response
+	body      []byte            // body of the handler's own response
+	before    bool              // handler wrote strictly before the deadline
+	after     bool              // handler wrote at/after the deadline
+	risky     bool              // may produce a response >= 500 that the per-route breaker sees
+	behaved   bool              // returns no later than the deadline
 }
+
+// c02BadStatus: codes on which net/http's ResponseWriter.WriteHeader panics ("invalid
+// WriteHeader code"). 600..999 are left out: net/http accepts them, the timeout
+// guard's buffer does not, the statement says nothing.
+func c02BadStatus(code int) bool { return code < 100 || code > 999 }
 
 func c02Chunk(id, step, n int) []byte {
 	return bytes.Repeat([]byte(fmt.Sprintf("<%s%d.%d>", c02Marker, id, step)), n)
@@ -215,6 +221,12 @@ loop:
 				wrote()
 			}
 		case "S":
+			if c02BadStatus(s.N) {
+				// net/http (and every writer wrapping it) panics inside WriteHeader on such a
+				// code, committing nothing: for the statement this is a handler panic at this point
+				p.panics, p.badStatus, p.risky = true, true, true
+				break loop
+			}
 			if !p.commit {
 				p.commit = true
 				p.code = s.N
@@ -272,6 +284,9 @@ func (r *c02Rec) commitLocked(code int) {
 }
 
 func (r *c02Rec) WriteHeader(code int) {
+	if c02BadStatus(code) {
+		panic(fmt.Sprintf("invalid WriteHeader code %v", code)) // as net/http and httptest do
+	}
 	r.mu.Lock()
 	defer r.mu.Unlock()
 	if r.closed {
@@ -408,7 +423,7 @@ func c02Valid(c c02Case) bool {
 						return false
 					}
 				case "S":
-					if s.N < 200 || s.N > 599 {
+					if (s.N < 200 || s.N > 599) && !c02BadStatus(s.N) {
 						return false
 					}
 					seenWrite = true
@@ -778,6 +793,9 @@ func c02Judge(c c02Case, flat []c02Flat, obs []*c02Obs, maxCur []int32, cls map[
 
 		if p.panics {
 			cls["panic"] = true
+			if p.badStatus {
+				cls["panic-inside-WriteHeader(invalid status)"] = true
+			}
 			if p.commit {
 				cls["panic-after-commit"] = true
 			} else {
@@ -957,7 +975,7 @@ func c02Rel(rt *rapid.T, d, elapsed int, label string) int {
 }
 
 func c02GenProg(rt *rapid.T, t, cn int, benign bool) []c02Step {
-	codes := []int{200, 200, 201, 302, 400, 404, 413, 499, 500, 502, 503, 599}
+	codes := []int{200, 200, 201, 302, 400, 404, 413, 499, 500, 502, 503, 599, 200, 201, 404, 500, 0, 1, 99, 1000, -1}
 	if benign {
 		var p []c02Step
 		if rapid.Bool().Draw(rt, "bh") {
@@ -995,7 +1013,11 @@ func c02GenProg(rt *rapid.T, t, cn int, benign bool) []c02Step {
 		case "H":
 			p = append(p, c02Step{K: "H"})
 		case "S":
-			p = append(p, c02Step{K: "S", N: rapid.SampledFrom(codes).Draw(rt, "code")})
+			code := rapid.SampledFrom(codes).Draw(rt, "code")
+			p = append(p, c02Step{K: "S", N: code})
+			if c02BadStatus(code) {
+				return p // WriteHeader panics here
+			}
 			wrote = true
 		case "W":
 			p = append(p, c02Step{K: "W", N: rapid.IntRange(1, 3).Draw(rt, "n")})
